@@ -75,6 +75,9 @@ struct St<'a> {
     /// methods of the type whose method is inspected: a call on `self` is followed
     helpers: &'a BTreeMap<String, syn::Block>,
     depth: usize,
+    /// `let <name> = <init>;` seen so far (token text of the initialiser): an argument that is a
+    /// plain local is read through its binding (`let data = StackSlotData::new(ExplicitSlot, ..)`)
+    locals: BTreeMap<String, String>,
 }
 
 /// methods that translate the instructions of a block (covered per kind by `instrStorage` / target `c12instr`)
@@ -113,7 +116,10 @@ impl<'ast> Visit<'ast> for St<'_> {
             }
         }
         if name == "create_sized_stack_slot" {
-            let args = m.args.to_token_stream().to_string();
+            let mut args = m.args.to_token_stream().to_string();
+            if let Some(init) = self.locals.get(args.trim()) {
+                args = init.clone();
+            }
             self.out.push(if args.contains("ExplicitSlot") { ".stackSlot" } else { ".stackSlotOther" });
         } else if name.contains("stack_slot") {
             self.out.push(".stackSlotOther");
@@ -134,6 +140,9 @@ impl<'ast> Visit<'ast> for St<'_> {
         if let syn::Stmt::Local(l) = s {
             if hook_attr(&l.attrs) {
                 return;
+            }
+            if let (syn::Pat::Ident(pi), Some(init)) = (&l.pat, &l.init) {
+                self.locals.insert(pi.ident.to_string(), init.expr.to_token_stream().to_string());
             }
         }
         syn::visit::visit_stmt(self, s);
@@ -168,7 +177,7 @@ fn methods_of(file: &syn::File, ty_prefix: &str) -> Helpers {
 }
 
 fn ops_of_expr(e: &syn::Expr, skip: Option<String>, helpers: &Helpers) -> Result<Vec<&'static str>, String> {
-    let mut v = St { out: vec![], err: None, skip, helpers, depth: 0 };
+    let mut v = St { out: vec![], err: None, skip, helpers, depth: 0, locals: BTreeMap::new() };
     v.visit_expr(e);
     match v.err {
         Some(e) => Err(e),
@@ -177,7 +186,7 @@ fn ops_of_expr(e: &syn::Expr, skip: Option<String>, helpers: &Helpers) -> Result
 }
 
 fn ops_of_block(b: &syn::Block, skip: Option<String>, helpers: &Helpers) -> Result<Vec<&'static str>, String> {
-    let mut v = St { out: vec![], err: None, skip, helpers, depth: 0 };
+    let mut v = St { out: vec![], err: None, skip, helpers, depth: 0, locals: BTreeMap::new() };
     v.visit_block(b);
     match v.err {
         Some(e) => Err(e),
